@@ -311,6 +311,17 @@ func c20Scenario(r *R) {
 	} else {
 		fmt.Fprintf(&b, "scenarios:\n  - name: sc\n    min_waiting_time: 0\n    requests:\n      - auth(1)\n      - list(1)\n      - order(%d)\n", norder)
 	}
+	// half of the descriptions have a second scenario made of the same calls (the calls, with their templated metadata
+	// and payload, are shared by both)
+	twoScenarios := w.Draw(2) == 0
+	if twoScenarios {
+		if pause > 0 {
+			fmt.Fprintf(&b, "  - name: sc2\n    min_waiting_time: 0\n    requests:\n      - auth(1, %d)\n      - list(1)\n      - sleep(%d)\n      - order(%d, %d)\n", pause, pause, norder, pause)
+		} else {
+			fmt.Fprintf(&b, "  - name: sc2\n    min_waiting_time: 0\n    requests:\n      - auth(1)\n      - list(1)\n      - order(%d)\n", norder)
+		}
+		r.Note("two-scenarios-sharing-calls")
+	}
 	invocations := 1 + w.Draw(6)
 	inst := 1 + w.Draw(4)
 	lat := []time.Duration{100 * time.Microsecond, 3 * time.Millisecond}[w.Draw(2)]
